@@ -58,6 +58,10 @@ def build_model(rng, p_ia: float = 0.5) -> tuple[dict, dict]:  # noqa: ANN001
     # failure switch: a row with kz = 0 makes the injected integrator (mon.scanwrap.flaky_scipy) fail at once
     spec["components"].append({"kind": "parameter", "name": "kz", "value": 1.0})
     spec["components"].append({"kind": "parameter", "name": "kzt", "value": 1e9})  # deadline after which the injected integrator fails
+    if rng.random() < 0.4:
+        # a readout and a derived quantity: the scan's tables carry the same columns as an independent simulation's
+        spec["components"].append({"kind": "readout", "name": "ro", "fn": fl.ref(fl.div2), "args": [net.variables[0], net.variables[-1]]})
+        spec["components"].append({"kind": "derived", "name": "dsum", "fn": fl.ref(fl.add2), "args": [net.variables[0], net.variables[-1]]})
     kout = [r["k"] for r in net.rxns if r["name"] == "vout"][0]
     A0, _ = net.Ab(net.params | {kout: 0.0})
     info = {"ia": False, "params": [p for p in net.params], "variables": list(net.variables),
@@ -347,6 +351,9 @@ def compare(kind: str, table: pd.DataFrame, inner, expected: list, var: pd.DataF
                 continue
             ev, ef = e
             for g, x, name in ((gv, ev, "variables"), (gf, ef, "fluxes")):
+                if set(g.columns) != set(x.columns):
+                    out.append({"what": f"scan table has other columns than an independent simulation of the row ({name})", "row": i, "scan": list(g.columns), "independent": list(x.columns)})
+                    return out
                 a = g.to_numpy(float)[0]
                 b = x[list(g.columns)].to_numpy(float)[0]
                 if not np.allclose(a, b, rtol=1e-9, atol=1e-12):
@@ -385,6 +392,9 @@ def compare(kind: str, table: pd.DataFrame, inner, expected: list, var: pd.DataF
                             "placeholder_index": [float(x) for x in gv.index], })
             continue
         ev, ef = e
+        if set(gv.columns) != set(ev.columns) or set(gf.columns) != set(ef.columns):
+            out.append({"what": "scan table has other columns than an independent simulation of the row", "row": str(label), "scan": [list(gv.columns), list(gf.columns)], "independent": [list(ev.columns), list(ef.columns)]})
+            return out
         d = frame_diff(gv, ev[list(gv.columns)]) or frame_diff(gf, ef[list(gf.columns)])
         if d:
             out.append({"what": "scan row differs from an independent simulation of that row", "row": str(label), "diff": d})
